@@ -546,6 +546,13 @@ def c03(case: dict, cv: CallView, out: list, budget: BudgetModel) -> dict:
             continue
         # the next attempt must start unless the pre-attempt poll aborts
         later_true = any(e[0] == "poll" and e[2] for e in a.ev[sleeps[0][0] :])
+        at = call.get("abort_at")
+        if at is not None and t_wake is not None and t_wake >= at and not later_true and not last:
+            # the abort predicate is a function of time: it has been answering True since before the sleep
+            # returned, so "no abort is requested" does not hold when the next attempt starts
+            info["abort"] = True
+            out.append(("C03:attempt-while-abort-requested", f"attempt {a.n + 1} made although abort_if has been answering True since {g(at)}s (woke at {g(t_wake)}s)"))
+            return info
         if later_true:
             info["abort"] = True
             if not last:
